@@ -54,6 +54,12 @@ def replay(prop, level, path, clause):
     runner = cases.Runner(mp)
     rec = json.load(open(path))
     c = rec["replay"]
+    if "machine" in c:
+        from .. import machine
+        if not machine.replay_one(mp, c):
+            print("VIOLATION property=%s replay=%s" % (prop, path))
+            raise SystemExit(1)
+        raise SystemExit(0)
     events, byid, dropped = arith.record([c], runner)
     bad = tlc.judge(events, tag=prop)
     print("case:", arith.abbreviate(c))
